@@ -11,6 +11,10 @@ cache.go / store.go / resolver.go):
     an expired generation held at gates);
   * code -> spec: every call is recorded (arguments, verdict, projection of the retained
     states) and checked by the property monitor Trace_FailureCache.tla.
+
+Zone-failure pipeline tier (checks/c13_zone.py): ZoneFail.tla (the resolver's server fan-out and the
+admission of a zone failure) exhaustive over all server-behaviour vectors, the vectors played by scripted
+authorities against the real full pipeline, judged from the scripted servers' own record.
 """
 import json
 import os
@@ -18,6 +22,7 @@ import re
 from concurrent.futures import ThreadPoolExecutor
 
 import vf
+import c13_zone
 
 MOD = "FailureCache"
 MCSPEC = "MC_FailureCache.tla"
@@ -342,6 +347,7 @@ def model_check(ctx, cfgs, workers, timeout):
 
 
 POOL = ThreadPoolExecutor(max_workers=4)
+ZONE_THREAD = ThreadPoolExecutor(max_workers=1)
 TRACE_CAP_QUICK = 30000
 
 
@@ -383,6 +389,8 @@ def run_replay(ctx, path):
                "shape": head.get("shape", "plain"), "cfg": driver_cfg(read_cfg(rep["cfg"])),
                "steps": [json.dumps(x) for x in steps_of_trace(lines)], "trace_cfg": rep["cfg"]}
     driver = rep.get("driver")
+    if driver == "TestZoneFailure":
+        return c13_zone.replay_zone(ctx, rep)
     if driver == "TestResolverShed":
         res = ctx.go_driver("./c13", driver, {"cfg": driver_cfg(read_cfg("Sim_Req"))}, name="replay", timeout=300)
         ctx.take_driver_result(res, "[replay] ")
@@ -420,7 +428,8 @@ def run(ctx, replay):
     n = 1 if not thorough else 8
     ctx.cov["rule"] = ("behaviours = every labelled edge of the TLC state graphs G_Names / G_Dims (covering paths) + "
                        "simulated behaviours of FailureCache.tla, each replayed on the real FailureCache / cache.Cache "
-                       "under several name/type/class/ECS shapes; distinct = distinct labelled edges / behaviours")
+                       "under several name/type/class/ECS shapes; + server-behaviour vectors of ZoneFail.tla played by scripted "
+                       "authorities against the full pipeline; distinct = distinct labelled edges / behaviours / vectors")
     ctx.assumptions += [
         "virtual time: FailureCacheConfig.Now / overlay VerifC13SetFailureNow; the clock moves only between completed calls",
         "answer cache abstracted: after a useful reply the ordinary answer entry is dropped (overlay VerifC13DropAnswer)",
@@ -438,10 +447,18 @@ def run(ctx, replay):
     graphs = ["G_Names", "G_Dims"] + (["G_Class"] if thorough else [])
     gfut = {g: POOL.submit(graph_paths, ctx, g) for g in graphs}
     sims = {"Sim_Api": (120 * n, 40), "Sim_Cap": (80 * n, 40), "Sim_Req": (60 * n, 40), "Sim_Kill": (32 * n, 30),
-            "Sim_Probe": (24 * n, 40)}
+            "Sim_Probe": (24 * n, 40), "Sim_Alias": (40 * n, 40)}
     if thorough:
         sims.update({"Sim_Store": (200, 40), "Sim_Default": (300, 60), "Sim_Odd": (300, 40), "Sim_ReqOdd": (200, 40)})
     sfut = {c: POOL.submit(sim_paths, ctx, c, num, depth) for c, (num, depth) in sims.items()}
+
+    # ---- zone-failure pipeline tier (ZoneFail.tla + scripted authorities against the full pipeline): its TLC runs
+    # and its driver go on beside everything below; the verdict is folded in at the end
+    ctx.assumptions += c13_zone.ASSUMPTIONS
+    ctx.harness_prepare()
+    ctx.overlay_file()
+    zmc, zcases, zkill = c13_zone.prepare(ctx)
+    zfut = ZONE_THREAD.submit(c13_zone.drive, ctx, zcases, zkill)
 
     # ---- phase 2: spec -> code replays (each records its trace)
     traces = []
@@ -471,17 +488,24 @@ def run(ctx, replay):
     if not res["cases"]:
         raise vf.MachineryError("ceiling probe did not run")
 
-    for cfgname in ["Sim_Req", "Sim_Kill"] + (["Sim_Store", "Sim_ReqOdd"] if thorough else []):
+    for cfgname in ["Sim_Req", "Sim_Alias", "Sim_Kill"] + (["Sim_Store", "Sim_ReqOdd"] if thorough else []):
         res, trace = run_driver(ctx, "TestRequestReplay", "req_" + cfgname, cfgname, sfut[cfgname].result(),
                                 what="cache.Cache " + cfgname)
         cnt = res.get("counters", {})
         if cfgname == "Sim_Req":
             if not cnt.get("requests_wire") or not cnt.get("requests_msg") or not cnt.get("served_from_failure_cache"):
                 raise vf.MachineryError("request replay is vacuous: %s" % cnt)
-            missing = [o for o in ("useful", "servfail", "authfail", "budget", "attemptLimit", "deadline", "cancel", "shed",
-                                   "bestEffort") if not cnt.get("outcome_" + o)]
+            missing = [o for o in ("useful", "servfail", "authfail", "aliasfail", "budget", "attemptLimit", "deadline", "cancel",
+                                   "shed", "bestEffort") if not cnt.get("outcome_" + o)]
             if missing:
                 raise vf.MachineryError("request replay never exercised outcomes %s" % missing)
+        if cfgname == "Sim_Alias":
+            # the alias-completion failure (second SERVFAIL branch of ResponseWriter.WriteMsg) must have been taken
+            # by ECS-scoped requests, both without a sub-query and through the installed Queryer
+            need = ("aliasfail_scoped", "aliasfail_self", "aliasfail_via_queryer", "alias_subqueries",
+                    "served_from_failure_cache")
+            if [x for x in need if not cnt.get(x)] or cnt.get("aliasfail_not_servfail"):
+                raise vf.MachineryError("alias-completion replay is vacuous: %s" % cnt)
         traces.append(("req_" + cfgname, cfgname, trace, "cache.Cache"))
 
     # SingleProbe: concurrent followers of an expired generation, held at gates
@@ -509,3 +533,4 @@ def run(ctx, replay):
     tf.append(POOL.submit(monitor_selftest, ctx, "G_Names", traces[0][2]))
     for f in tf + mc:
         f.result()
+    c13_zone.conclude(ctx, zfut.result(), zcases, zmc)
